@@ -36,7 +36,8 @@ PROBES = ["ran_to_completion", "forced_cleanup_deleted_preexisting", "refused_wi
           "identical_paths", "via_symlink", "default_name_coincidence", "symlink_in_input", "file_input", "multi_input",
           "fault_crash", "fault_eio_copy", "fault_enospc_write", "fault_eacces_mkdir", "second_run_on_residue", "copied_files",
           "relative_workspace", "default_workspace", "input_via_symlinked_ancestor", "cwd_contains_default_name",
-          "c_language", "c_header_preprocess", "second_run_other_project", "second_run_incremental", "spawned_subprocess", "graph_output", "javascript_language"]
+          "c_language", "c_header_preprocess", "second_run_other_project", "second_run_incremental", "spawned_subprocess", "graph_output", "javascript_language",
+          "inputs_share_base_name", "input_given_with_leading_dotdots", "strict_parse_mode", "non_utf8_source_file"]
 # the same check again, smaller, in interpreters started with assertions stripped (python -O / PYTHONOPTIMIZE=1)
 ENV_VARIANTS = [{"name": "python-O", "env": {"PYTHONOPTIMIZE": "1"}, "runs": {'quick': 250, 'thorough': 2500}}]
 TIERS = {
@@ -96,6 +97,10 @@ def gen_knobs(rng, tier):
         "cwd_in_input": rng.random() < 0.3,
         "symlinked_ancestor": rng.random() < 0.25,
         "cwd_named_like_default": rng.random() < 0.2,
+        "same_basename": rng.random() < 0.2,
+        "deep_cwd": rng.random() < 0.3,
+        "strict": rng.random() < 0.2,
+        "latin1": rng.random() < 0.25,
         "tier": tier,
     }
 
@@ -127,6 +132,12 @@ def _tree(rng, k, base, ops):
             ops.append({"op": "mkfile", "path": os.path.join(d, n), "content": OTHER[n]})
     if k["coincidence"]:
         ops.append({"op": "mkfile", "path": os.path.join(rng.choice(dirs), f"x_{DEFAULT_WS}.py"), "content": "z = 0\n"})
+    if k.get("latin1"):
+        # a source file in a legacy 8-bit encoding (not valid UTF-8), in the analysed language
+        ext = ".c" if k["lang"] == "c" else (".js" if k["lang"] == "javascript" else ".py")
+        body = {".c": "/* caf\u00e9 */\nint legacy(int a) { return a; }\n", ".js": "// caf\u00e9\nvar legacy = 'd\u00e9j\u00e0';\n",
+                ".py": "# caf\u00e9\nlegacy = 'd\u00e9j\u00e0'\n"}[ext]
+        ops.append({"op": "mkfile", "path": os.path.join(rng.choice(dirs), "legacy" + ext), "content": body, "encoding": "latin-1"})
     if rng.random() < 0.2:
         # names and contents that are not ASCII, a name with blanks
         ops.append({"op": "mkfile", "path": os.path.join(rng.choice(dirs), "m\u00fcn\u00ef \u540d.py"), "content": "s = '\u00e4\u540d'\n"})
@@ -165,6 +176,12 @@ def generate(rng, k):
                 p = f"in{i}" if not (k["coincidence"] and i == 1) else f"in{i}_{DEFAULT_WS}_samples"
                 ops.append({"op": "mkdir", "path": p})
                 _tree(rng, k, p, ops)
+            inputs.append(p)
+        if k.get("same_basename") and not inputs[0].endswith(".py"):
+            # a second directory with the SAME base name as the first input, somewhere else
+            p = "other/deeper/" + os.path.basename(inputs[0])
+            ops.append({"op": "mkdir", "path": p})
+            _tree(rng, k, p, ops)
             inputs.append(p)
         ops.append({"op": "mkfile", "path": "outp/sibling.txt", "content": "next to the workspace\n"})
         ws_opt = "outp/wsroot"
@@ -206,6 +223,7 @@ def generate(rng, k):
         cwd = inputs[0]
     run = {"op": "run", "sub": k["sub"], "lang": k["lang"], "force": k["force"], "cwd": cwd,
            "flags": (["--nomock"] if k["nomock"] else []) + (["-I"] if k["lang"] == "c" and k.get("c_preprocess") else [])
+                    + (["--strict-parse-mode"] if k.get("strict") else [])
                     + ((["--graph", "--enable-p2"] if k.get("graph") and k["sub"] != "lang" else []))}
     if wform == "omitted":
         # default name relative to cwd: the workspace is <cwd>/lian_workspace
@@ -219,6 +237,10 @@ def generate(rng, k):
     else:
         run["w"] = {"form": "abs", "path": ws_opt}
     run["inputs"] = [{"form": rng.choice(["abs", "rel", "rel"]), "path": p} for p in inputs]
+    if k.get("deep_cwd") and run["cwd"] == "cw":
+        # started from a directory some levels down: relative paths begin with several ".."
+        ops.append({"op": "mkdir", "path": "cw/lvl1/lvl2"})
+        run["cwd"] = "cw/lvl1/lvl2"
     if k.get("symlinked_ancestor"):
         # the same inputs, named through a symlink to the world root (/x/link/proj with link -> real)
         ops.insert(len(ops), {"op": "symlink", "path": "lnkroot", "target_abs": "."})
@@ -281,7 +303,7 @@ def _mk_world(R, ops):
             os.makedirs(os.path.dirname(p), exist_ok=True)
             if os.path.isdir(p) or os.path.islink(p):
                 continue
-            with open(p, "w") as f:
+            with open(p, "w", encoding=op.get("encoding") or None) as f:
                 f.write(op["content"])
         elif kind == "symlink":
             p = os.path.join(R, op["path"])
@@ -363,6 +385,15 @@ def execute(trace):
                     hit("default_name_coincidence")
             if len(in_args) > 1:
                 hit("multi_input")
+                bases = [os.path.basename(a.rstrip("/")) for a in in_args]
+                if len(set(bases)) < len(bases):
+                    hit("inputs_share_base_name")
+            if any(a.startswith("../../") for a in in_args):
+                hit("input_given_with_leading_dotdots")
+            if "--strict-parse-mode" in op.get("flags", []):
+                hit("strict_parse_mode")
+            if any(o_.get("encoding") for o_ in world_ops):
+                hit("non_utf8_source_file")
             if any(os.path.realpath(os.path.join(cwd_abs, a)) != os.path.abspath(os.path.join(cwd_abs, a)) for a in in_args):
                 hit("input_via_symlinked_ancestor")
             if DEFAULT_WS in cwd_abs[len(R):]:
